@@ -322,6 +322,12 @@ fn check_parsed_types(input: &super::c01::Mutated, case: &mut Case) -> Result<()
             return Ok(());
         }
         for (wr, rr) in wire.iter().zip(recs.iter()) {
+            // the entry the library shows at this index must be the entry the walker framed there (where each entry
+            // begins is C05's statement): the owner names serve as the witness
+            if oname(&rr.name) != wr.name.aname() {
+                case.class("entries-not-aligned-with-the-framing:no-claim");
+                return Ok(());
+            }
             case.nontrivial = true;
             let tc = lib("type_code", || rr.rdata.type_code())?;
             ensure!(u16::from(tc) == wr.rtype && tc == TYPE::from(wr.rtype), "c18:type-code-parsed", "an entry with TYPE field {} is reported as {:?}; message {}", wr.rtype, tc, hex(&bytes[..bytes.len().min(120)]));
